@@ -419,6 +419,64 @@ theorem parse_serialize (hid : UInt8) (rnd : Bytes) (cfg : Option Int) (pw : Byt
     simpa using this
   · simp only [Spec.derive, ha, Option.bind_some, hkey]
 
+/-! ### Parse followed by the returned function = RFC 4880 §3.7.1 -/
+
+theorem algRipemd160_wellSized : algRipemd160.WellSized := XC.C14.ripemd160_size
+
+/-- every supported hash id names a hash with a fixed, positive digest size -/
+theorem hashOfId_good (id : UInt8) (a : HashAlg) (h : hashOfId id = some a) : a.WellSized ∧ 0 < a.size := by
+  unfold hashOfId at h
+  split at h
+  · cases h; exact ⟨algMd5_wellSized, Nat.lt_of_sub_eq_succ rfl⟩
+  split at h
+  · cases h; exact ⟨algSha1_wellSized, Nat.lt_of_sub_eq_succ rfl⟩
+  split at h
+  · cases h; exact ⟨algRipemd160_wellSized, Nat.lt_of_sub_eq_succ rfl⟩
+  split at h
+  · cases h; exact ⟨algSha256_wellSized, Nat.lt_of_sub_eq_succ rfl⟩
+  split at h
+  · cases h; exact ⟨algSha384_wellSized, Nat.lt_of_sub_eq_succ rfl⟩
+  split at h
+  · cases h; exact ⟨algSha512_wellSized, Nat.lt_of_sub_eq_succ rfl⟩
+  split at h
+  · cases h; exact ⟨algSha224_wellSized, Nat.lt_of_sub_eq_succ rfl⟩
+  · cases h
+
+/-- **the function returned by Parse derives the RFC 4880 key**, for the three specifier kinds, any
+    supported hash, any count byte, any passphrase and key length:
+    simple  → first n bytes of H(pw) ‖ H(0‖pw) ‖ …;
+    salted  → the same over salt ‖ pw;
+    iterated → the same over `decodeCount c` octets (at least one full pass) of salt ‖ pw repeated. -/
+theorem derive_eq_spec (hid : UInt8) (a : HashAlg) (ha : hashOfId hid = some a) (salt pw : Bytes) (c : UInt8)
+    (n : Nat) :
+    (Spec.simple hid).derive pw n = some (s2kSpec a pw n) ∧
+    (Spec.salted hid salt).derive pw n = some (s2kSpec a (salt ++ pw) n) ∧
+    (0 < salt.length → (Spec.iterated hid salt c).derive pw n =
+        some (s2kSpec a (iterMessage salt pw (decodeCount c)) n)) := by
+  obtain ⟨hw, hs⟩ := hashOfId_good hid a ha
+  refine ⟨?_, ?_, ?_⟩
+  · simp only [Spec.derive, ha, Option.map_some, Option.some.injEq]
+    have := salted_eq_spec a hw hs n pw []
+    simpa using this
+  · simp only [Spec.derive, ha, Option.map_some, Option.some.injEq]
+    exact salted_eq_spec a hw hs n pw salt
+  · intro hl
+    simp only [Spec.derive, ha, Option.bind_some]
+    have := iterated_eq_spec a hw hs n pw salt (decodeCount c) (by simp; omega)
+    simpa using this
+
+/-- Parse ∘ encode ∘ derive: an encoded iterated specifier (8-byte salt) followed by any trailing bytes
+    parses and derives the RFC key -/
+theorem parse_then_derive (hid : UInt8) (a : HashAlg) (ha : hashOfId hid = some a) (salt pw rest : Bytes)
+    (c : UInt8) (n : Nat) (hl : salt.length = 8) :
+    ∃ s, parse (Spec.encode (.iterated hid salt c) ++ rest) = .ok (s, rest) ∧
+      s.derive pw n = some (s2kSpec a (iterMessage salt pw (decodeCount c)) n) :=
+  ⟨_, parse_encode (.iterated hid salt c) rest ⟨by simp [ha], hl⟩,
+    (derive_eq_spec hid a ha salt pw c n).2.2 (by omega)⟩
+
+/-- non-vacuity: SHA-1 (id 2) is a supported hash; the default count byte 96 decodes to 65536 -/
+example : hashOfId 2 = some algSha1 ∧ decodeCount 96 = 65536 := ⟨rfl, by decide +kernel⟩
+
 /-- non-vacuity: a specifier that parses (one trailing byte left unread), one with an unsupported
     hash id, a truncated one -/
 example : parse [3, 2, 1, 2, 3, 4, 5, 6, 7, 8, 96, 0xaa] =
